@@ -30,8 +30,8 @@ import (
 // hashmod, shuffle sharding with and without zone awareness), plus seeded random layouts.
 
 const (
-	c19Deadline   = 20 * time.Second // a 12-node ring is built in ~20 ms; never a matter of machine speed
-	c19HangBudget = 4                // after this many observed hangs the remaining cases are skipped
+	c19Deadline   = 60 * time.Second // a 12-node ring is built in ~20 ms; generous even on a machine loaded 10x
+	c19HangBudget = 3                // after this many observed hangs the remaining cases are skipped
 )
 
 type hrWorker struct {
